@@ -116,6 +116,27 @@ func expressible(d *rt.Def) bool {
 	return false
 }
 
+// scriptText writes the commands in the documented syntax, one per line, options always as k=v (the Go twin of
+// `printDef`/`scriptText` in Model/C05Lang.lean; rt.Def.Line writes an option without value as the bare key).
+func scriptText(ds []rt.Def) string {
+	ls := make([]string, len(ds))
+	for i := range ds {
+		d := ds[i]
+		if d.Cmd == "add" && len(d.Opts) > 0 {
+			d.Opts = nil
+			ls[i] = d.Line()
+			var kv []string
+			for _, o := range ds[i].Opts {
+				kv = append(kv, o[0]+"="+o[1])
+			}
+			ls[i] += ` opts "` + strings.Join(kv, " ") + `"`
+		} else {
+			ls[i] = d.Line()
+		}
+	}
+	return strings.Join(ls, "\n")
+}
+
 func expressibleAll(ds []rt.Def) bool {
 	for i := range ds {
 		if !expressible(&ds[i]) {
@@ -173,7 +194,9 @@ func runScript(in *scriptIn) (interface{}, error) {
 	// variant 3: the same commands written in the command language and read by NewTable (Parse + the same three
 	// handlers): the text entry point and the structured one (NewTableCustom, the custom backend) must agree
 	if expressibleAll(in.Defs) {
-		out["viaText"] = textOutcome(rt.Text(in.Defs))
+		src := scriptText(in.Defs)
+		out["viaText"] = textOutcome(src)
+		out["viaTextSrc"] = src // compared with the model's writer (`scriptText` in Model/C05Lang.lean)
 	}
 	out["oracle"] = in.Oracle
 	out["defs"] = in.Defs // with the exact rationals of the weights filled in
